@@ -133,6 +133,18 @@ structure PubCfg where
   maps : List Bytes
   pub : List Bytes
   parents : List (List Bytes × List Bytes) := []
+  /-- naming: a symbol is addressed by its NAME (what `maps` / `pub` list, what a query writes) and stored under a
+      KEY — `AddMapSymbol(name, type, key)`, `AddSymbolWithKey(name, type, key)`, `AddFkSymbolWithKey(name, key, …)`.
+      `mapKeys`: (name, key) of the entries of `store.mapSymbols`; `symKeys`: (name, key) of the entries of
+      `store.symbols`.  A name not listed is stored under itself.  Arbitrary lists: a key may equal the name of any
+      other symbol, two symbols may share a key. -/
+  mapKeys : List (Bytes × Bytes) := []
+  symKeys : List (Bytes × Bytes) := []
+
+/-- `store.mapSymbols[n].key` -/
+def PubCfg.mapKey (c : PubCfg) (n : Bytes) : Bytes := (c.mapKeys.lookup n).getD n
+/-- key of `store.symbols.Get(n)` -/
+def PubCfg.symKey (c : PubCfg) (n : Bytes) : Bytes := (c.symKeys.lookup n).getD n
 
 /-- BaseStore.IsPublicSymbol -/
 def isPublicSymbol (c : PubCfg) (s : Bytes) : Bool :=
